@@ -282,6 +282,22 @@ def gen_files(rng, tier):
         c["bp_order"] = rng.sample(range(len(c["samples"])), len(c["samples"]))
         # repeats interleaved in the .hap file
         c["repeat"] = rng.random() < 0.4
+        if t % 7 == 3:
+            # a fixed share: variant IDs of the chrom:pos:ref:alt kind, as long as the genotype classes can hold (50 characters);
+            # the variants the genotypes lack are named like a variant they hold plus one more letter (an absent ID is absent,
+            # however much of it some other ID shares)
+            nv = len(c["variants"])
+            long_id = lambda j: (f"1:{1000 + j}:" + "ACGT" * 13)[:50]
+            ren = {v["id"]: long_id(j) for j, v in enumerate(c["variants"])}
+            for v in c["variants"]:
+                v["id"] = ren[v["id"]]
+            for h in c["haps"]:
+                for v in h["vars"]:
+                    if v[0] in ren:
+                        v[0] = ren[v[0]]
+                    elif v[0].startswith("absent"):
+                        k = int(v[0][6:])
+                        v[0] = long_id(k % nv) + "T" * (1 + k // nv)
         yield c
 
 
